@@ -67,6 +67,7 @@ func runC18(c *core.Ctx) {
 	runR185(c)
 	runR186(c)
 	runR188(c, runR187(c))
+	runR189(c)
 
 	// ---- R18.2
 	lockKey := "T:" + core.Mod + "/metrics.hist.lock*"
